@@ -1041,7 +1041,9 @@ func serviceValue(r *RegCfg) (any, error) {
 		id := R.nextID
 		R.instReg[id] = r.ID
 		R.mu.Unlock()
-		emit(M{"ev": "inst", "reg": r.ID, "id": id})
+		if !R.quiet {
+			emit(M{"ev": "inst", "reg": r.ID, "id": id})
+		}
 		return newS(r.Slot, id, r.ID), nil
 	}
 	if r.Kind != "" {
